@@ -20,6 +20,7 @@ import (
 func init() {
 	mon.Register(&mon.Check{
 		ID:        "C13",
+		Boost:     4,
 		Batches:   func(tier string) int { return 16 },
 		Run:       runC13,
 		Technique: "reference-evaluator runtime monitor: an independent admission evaluator (net/netip containment on unmapped addresses) predicts refusal or the bound scope for every (configuration, remote address); observed at Loader.Get (scope identified by its unique key) and on the full server over simnet with fabricated remote addresses (event log of refused connections, AAA outcomes under the expected key)",
